@@ -384,6 +384,14 @@ func (c *Conn) Buffered() int {
 	return len(p.buf) - p.off
 }
 
+// PeekBuffered returns a copy of the bytes deliverable to this end right now (they stay deliverable).
+func (c *Conn) PeekBuffered() []byte {
+	p := c.in
+	p.mu.Lock()
+	defer p.mu.Unlock()
+	return append([]byte(nil), p.buf[p.off:]...)
+}
+
 // Stats of this end: completed data-returning reads, bytes read, writes, bytes written.
 type Stats struct {
 	Reads, Writes         int
